@@ -36,6 +36,8 @@ D2S = [
     "@comment{d2 c}\n@misc{d2c}",
     "@a{d2d, f = {1}}\n\n@b{d2e, g = 2,\n h = {l1\nl2}}\n",
     "@misc{d2f}\n@a{d2g, f = {1}}",
+    # entry types beyond plain letters (digits, underscore, non-ASCII letters: everything \\w matches)
+    "@inproceedings2{d2h, f = {1}}\n@tech_report{d2i}\n@art\xedculo_9{d2j, g = {2},}",
 ]
 X_BLOCKS = [
     "@article{xk1, t = {A {B}}, y = 1}",
